@@ -7,8 +7,13 @@ import "unsafe"
 
 
 
-func atomPoint(p unsafe.Pointer) {
+func atomPoint(p unsafe.Pointer) { atomPointRW(p, true) }
+
+func atomPointRW(p unsafe.Pointer, write bool) {
 	t := yield(pendingOp{kind: opAtomic})
+	// mixed atomic / plain accesses to the same word are data races: record the atomic access
+	// in the shadow memory before the clocks are joined
+	access(uintptr(p), p, write, kindAtomic)
 	k := uintptr(p)
 	v := S.atoms[k]
 	if v == nil {
@@ -20,9 +25,9 @@ func atomPoint(p unsafe.Pointer) {
 	v.join(release(t))
 }
 
-func LoadUint32(p *uint32) uint32 { atomPoint(unsafe.Pointer(p)); return *p }
+func LoadUint32(p *uint32) uint32 { atomPointRW(unsafe.Pointer(p), false); return *p }
 func LoadInt32(p *int32) int32    { atomPoint(unsafe.Pointer(p)); return *p }
-func LoadUint64(p *uint64) uint64 { atomPoint(unsafe.Pointer(p)); return *p }
+func LoadUint64(p *uint64) uint64 { atomPointRW(unsafe.Pointer(p), false); return *p }
 func LoadInt64(p *int64) int64    { atomPoint(unsafe.Pointer(p)); return *p }
 func StoreUint32(p *uint32, v uint32) { atomPoint(unsafe.Pointer(p)); *p = v }
 func StoreInt32(p *int32, v int32)    { atomPoint(unsafe.Pointer(p)); *p = v }
